@@ -118,3 +118,46 @@ func c08RotatedSecretReload(c *vlib.Ctx, dir string) {
 		a.Close()
 	}
 }
+
+// c08EmptyHMACBlock: a route that declares `auth hmac { ... }` without any secret in the block
+// (empty block, a block holding only a comment). The route declares authentication, so either the
+// configuration is refused or nothing unauthenticated gets in.
+func c08EmptyHMACBlock(c *vlib.Ctx, dir string) {
+	for bi, block := range []string{"auth hmac { }", "auth hmac {\n }", "auth hmac {\n  # secret to be filled in\n }", "auth hmac {}"} {
+		text := "ingress { listen 127.0.0.1:0 }\npull_api { listen 127.0.0.2:0\n auth token raw:tok }\nadmin_api { listen 127.0.0.3:0 }\n" +
+			"/in { queue { backend memory }\n " + block + "\n pull { path /pull/in } }\n"
+		clock := vlib.NewVClock(c08T0)
+		a, err := l2.Start(dir, text, nil, clock)
+		c.Count("evaluations", 1)
+		c.Count("empty_hmac_block_trials", 1)
+		if err != nil {
+			c.Distinct("nontrivial", fmt.Sprintf("empty_hmac_block:%d:refused", bi))
+			continue // refusing the configuration is failing closed
+		}
+		c.Distinct("nontrivial", fmt.Sprintf("empty_hmac_block:%d:started", bi))
+		ts := strconv.FormatInt(c08T0.Unix(), 10)
+		body := []byte("payload")
+		probes := map[string]map[string]string{
+			"no_authentication_headers":    {},
+			"signed_with_the_empty_key":    {"X-Timestamp": ts, "X-Nonce": "e1", "X-Signature": signInbound("", "POST", "/in", ts, body)},
+			"signed_with_an_arbitrary_key": {"X-Timestamp": ts, "X-Nonce": "e2", "X-Signature": signInbound("whatever", "POST", "/in", ts, body)},
+		}
+		for name, hdr := range probes {
+			req, _ := l2.NewRequest("POST", "/in", body, "")
+			for k, v := range hdr {
+				req.Header.Set(k, v)
+			}
+			before, _ := vlib.ListAll(a.Store)
+			resp := l2.Do(a.Ingress, req)
+			after, _ := vlib.ListAll(a.Store)
+			c.Count("evaluations", 1)
+			if resp.Status != 401 || len(after) != len(before) {
+				c.Violation(vlib.Signature{"class": "hmac_block_without_secret_opens_route", "probe": name},
+					fmt.Sprintf("route declaring %q was accepted by the compiler and answers a request with %s with %d (queue +%d)", block, name, resp.Status, len(after)-len(before)),
+					map[string]any{"config": text, "probe": name})
+				break
+			}
+		}
+		a.Close()
+	}
+}
